@@ -160,7 +160,7 @@ def record(args):
 
 def run(tier: str) -> int:
     chk = Check(PROP, tier)
-    nmax, pmax = (6, 2) if tier == "quick" else (7, 3)
+    nmax, pmax = (6, 2) if tier == "quick" else (7, 2)   # (7, 3) has millions of subset outputs: > 40 min
     chk.rule = (f"stage A/B: every valid sparse output with n <= {nmax} (change: all changepoint sets; anomaly: all "
                 f"sets of disjoint intervals; subset: n <= {nmax - 1}, p <= {pmax}, all non-empty column subsets) x "
                 "6 index types x 2 column labelings x {static converter, transform of a stub detector}; stage C: "
